@@ -7,8 +7,8 @@
 
    Restrictions (the generators stay inside them): the text is valid UTF-8
    (bytes above 127 inside strings are copied) and numbers are integers without
-   fraction or exponent (a fraction or an exponent is reported as a syntax
-   error). *)
+   fraction or exponent (a fraction, an exponent or the literal "-0", which
+   serde_json reads as f64, is reported as a syntax error). *)
 From Coq Require Import List NArith ZArith Bool String.
 From WF Require Import Base.Bytes Base.Sexp Sem.TypeCodec.
 Import ListNotations.
@@ -158,8 +158,9 @@ Fixpoint parse_value (fuel : nat) (depth : nat) (s : bytes) {struct fuel} : opti
             | _ => None
             end
           else if c =? 45 then
+            (* "-0" is the float -0.0 for serde_json: in the class of literals this layer refuses *)
             match parse_uint r with
-            | Some (n, r') => Some (JNum (- Z.of_N n), r')
+            | Some (n, r') => if n =? 0 then None else Some (JNum (- Z.of_N n), r')
             | None => None
             end
           else if is_digit c then
@@ -237,6 +238,14 @@ with parse_elems (fuel : nat) (depth : nat) (s : bytes) (acc : list json) {struc
 Definition json_parse (s : bytes) : option json :=
   match parse_value (S (S (List.length s + List.length s))) 128 s with
   | Some (j, r) => match skip_ws r with [] => Some j | _ => None end
+  | None => None
+  end.
+
+(* a Deserializer that is never asked for end(): the value, then anything
+   (ffi: wirefilter_deserialize_json_to_execution_context) *)
+Definition json_parse_prefix (s : bytes) : option json :=
+  match parse_value (S (S (List.length s + List.length s))) 128 s with
+  | Some (j, _) => Some j
   | None => None
   end.
 
